@@ -11,6 +11,7 @@ is bound on some paths only is NOT judged here.
 """
 import ast
 import builtins
+import re
 import symtable
 
 from ..model import norm_text
@@ -137,17 +138,21 @@ def arg_order(ctx, modules=None):
 
 
 _TABLE_KINDS = ('Imu', 'Trajectory', 'Increments', 'TrajectoryError')
+_ROW_KINDS = ('Pva', 'PvaError')
 
 
 def col_byname(ctx, modules=None):
-    """COL-BYNAME - the documented tables (Imu, Trajectory, Increments, TrajectoryError) are
-    defined by their column NAMES; a public function that takes one of them as a whole by
-    position (`.values`, `.to_numpy()`, `np.asarray(table)`, `np.hsplit(table, …)`,
-    `.iloc[:, k]`) silently reads the wrong signals from a frame whose columns come in another
-    order (a file read with pandas).  Row-positional access (`.iloc[k]`, `.iloc[a:b]`) carries no
-    such obligation.  On the pinned tree no documented table parameter is used this way."""
+    """COL-BYNAME - the documented kinds (tables Imu, Trajectory, Increments, TrajectoryError;
+    rows Pva, PvaError) are defined by their column / index NAMES ("the same kinds of data have
+    the same set of columns (or index in case of Series)", pyins/__init__.py); a public function
+    that takes one of them as a whole by position (`.values`, `.to_numpy()`, `np.asarray(x)`,
+    `np.hsplit(x, ...)`, `.iloc[:, k]`; for a row also `.iloc[k]`, `x[a:b]`, `x[3]`) silently
+    reads the wrong signals from an object whose labels come in another order (a file read with
+    pandas, a Series built from a dict).  Row-positional access to a table (`.iloc[k]`,
+    `.iloc[a:b]`) carries no such obligation.  On the pinned tree no documented parameter is
+    used this way."""
     ctx.rule('COL-BYNAME', 'a parameter documented as Imu / Trajectory / Increments / TrajectoryError '
-             'is never taken column-wise by position')
+             '/ Pva / PvaError is never taken column-wise by position')
     n = 0
     for f in ctx.repo.public_surface():
         short = f.module.name.split('.')[-1]
@@ -159,28 +164,41 @@ def col_byname(ctx, modules=None):
             params = {}
         for p, kind in params.items():
             k = str(kind)
-            if not any(t in k for t in _TABLE_KINDS) or 'Pva' in k.split(',')[0] and \
-                    'Trajectory' not in k:
+            words = set(re.findall(r'[A-Za-z]+', k)) - {'or', 'optional', 'None'}
+            if not words or not words <= set(_TABLE_KINDS + _ROW_KINDS):
                 continue
+            row_only = words <= set(_ROW_KINDS)
             n += 1
-            # a re-binding `p = p[COLS]` / `p = p.copy()` keeps the obligation only for the
-            # whole table: stop at the first re-binding that selects columns
+            res = lambda x: f.module.resolve(x, f.local_names()) or ''
             for node in ast.walk(f.node):
                 bad = None
                 if isinstance(node, ast.Attribute) and isinstance(node.value, ast.Name) and \
-                        node.value.id == p and node.attr in ('values', 'to_numpy'):
+                        node.value.id == p and node.attr in ('values', 'to_numpy', 'array'):
                     bad = norm_text(node)
                 if isinstance(node, ast.Subscript) and isinstance(node.value, ast.Attribute) and \
                         isinstance(node.value.value, ast.Name) and node.value.value.id == p and \
-                        node.value.attr == 'iloc' and isinstance(node.slice, ast.Tuple) and \
-                        len(node.slice.elts) == 2 and not (
-                            isinstance(node.slice.elts[1], ast.Slice) and
-                            node.slice.elts[1].lower is None and node.slice.elts[1].upper is None):
+                        node.value.attr in ('iloc', 'iat'):
+                    sl = node.slice
+                    if isinstance(sl, ast.Tuple) and len(sl.elts) == 2 and not (
+                            isinstance(sl.elts[1], ast.Slice) and sl.elts[1].lower is None and
+                            sl.elts[1].upper is None and sl.elts[1].step is None):
+                        bad = norm_text(node)
+                    elif row_only:
+                        bad = norm_text(node)
+                if row_only and isinstance(node, ast.Subscript) and \
+                        isinstance(node.value, ast.Name) and node.value.id == p and (
+                            isinstance(node.slice, ast.Slice) or
+                            (isinstance(node.slice, ast.Constant) and
+                             isinstance(node.slice.value, int)) or
+                            (isinstance(node.slice, ast.UnaryOp) and
+                             isinstance(node.slice.operand, ast.Constant) and
+                             isinstance(node.slice.operand.value, int))):
                     bad = norm_text(node)
-                if isinstance(node, ast.Call) and \
-                        (f.module.resolve(node.func, f.local_names()) or '') in (
+                if isinstance(node, ast.Call) and res(node.func) in (
                         'numpy.asarray', 'numpy.array', 'numpy.hsplit', 'numpy.split',
-                        'numpy.ascontiguousarray', 'numpy.asanyarray', 'numpy.asfarray') \
+                        'numpy.ascontiguousarray', 'numpy.asanyarray', 'numpy.asfarray',
+                        'numpy.atleast_1d', 'numpy.atleast_2d', 'numpy.ravel',
+                        'builtins.list', 'builtins.tuple') \
                         and node.args and isinstance(node.args[0], ast.Name) and \
                         node.args[0].id == p:
                     bad = norm_text(node)
@@ -188,7 +206,7 @@ def col_byname(ctx, modules=None):
                     ctx.ob('COL-BYNAME', False, None, '%s of %s by name' % (p, f.qualname), f=f,
                            node=node, key='%s:%s:%s' % (f.qualname, p, bad[:40]),
                            why='%s takes its %s parameter `%s` column-wise by position (`%s`): the '
-                               'table is defined by column names, a frame with the same columns in '
+                               'kind is defined by its labels, an object with the same labels in '
                                'another order is read as the wrong signals' % (f.qualname, k[:30],
                                                                                p, bad[:60]))
     ctx.ob('COL-BYNAME', True, None, '%d documented table parameters examined' % n, key='scanned')
